@@ -197,6 +197,7 @@ def sym_trunc(x):
     n = core.fresh_int('pytrunc')
     r = z3.ToReal(n)
     core.assume(z3.If(x.t >= 0, z3.And(r <= x.t, x.t < r + 1), z3.And(r >= x.t, x.t > r - 1)))
+    core.ROUNDINGS[str(n)] = ('trunc', x.t)
     if core.CTX is not None:
         core.ctx().log.append(('pytrunc', x.t, n))
     return SymInt(n)
